@@ -6,6 +6,7 @@
 //	{"id": 3, "system": "dqueue", "cfg": {"NUM_CONSUMERS": 2, "BUFFER_SIZE": 2},
 //	 "sched": [["producer", [k...]], ["c1", []], ...]}            explicit schedule (proc names)
 //	{"id": 4, "system": "dqueue", "cfg": {...}, "auto": {"seed": 99, "steps": 60}}   seeded random walk
+//	{"id": 5, "system": "live_shcounter", "cfg": {"NUM_NODES": 3, "RPC": 1}}            live run over the deployment resources (live.go)
 //
 // Output: one JSON line per case:
 //
@@ -40,6 +41,7 @@ type result struct {
 	Init   map[string]interface{} `json:"init"`
 	Steps  []steplib.Obs          `json:"steps"`
 	Err    string                 `json:"err"`
+	Live   map[string]interface{} `json:"live,omitempty"` // live (deployment smoke) runs, see live.go
 }
 
 // builders: system name -> constructs the System (procs added, not started) for a configuration
@@ -56,6 +58,10 @@ func runCase(k kase) (res result) {
 			res.Err = fmt.Sprint("harness panic: ", r)
 		}
 	}()
+	if lr, ok := liveRunners[k.System]; ok {
+		res.Live = lr(k.Cfg)
+		return
+	}
 	b, ok := builders[k.System]
 	if !ok {
 		res.Err = "unknown system " + k.System
@@ -126,6 +132,12 @@ func main() {
 			fmt.Fprintln(os.Stderr, "bad case:", err)
 			os.Exit(2)
 		}
-		enc.Encode(runCase(k))
+		r := runCase(k)
+		enc.Encode(r)
+		if r.Live != nil && r.Live["exit"] == true {
+			// a live run left goroutines behind (hang, or a Stop that did not return): do not let them disturb later cases
+			out.Flush()
+			os.Exit(0)
+		}
 	}
 }
